@@ -76,6 +76,12 @@ def polynomial_from_attributes(
         polynomial(0)
 
     """
+    if dtype is None and len(coefficients):
+        # decided before cleaning, so that an all-zero coefficient which is
+        # dropped (or retained) can not change the data type of the result.
+        dtype = numpy.result_type(
+            *[numpy.asarray(coeff).dtype for coeff in coefficients]
+        )
     exponents, coefficients, names = clean.postprocess_attributes(
         exponents=exponents,
         coefficients=coefficients,
